@@ -121,12 +121,12 @@ each case makes several parser calls."
         maddr::strategy, maddr::check
     );
     vh_core::section!(
-        rep, "cache_file", (12_000, 600_000), 16,
+        rep, "cache_file", (8_000, 400_000), 16,
         "bootstrap cache file contents (raw bytes; harness-rendered on-disk layout with free-text counters/timestamps; files written by the real store with counters edited / cut) x reader limits -> load_cache_data; untouched real file: loaded == written minus documented clean-up. non-trivial: short raw file, peer over the per-peer limit, counters summing above u32::MAX, over peer limit, edited or cut file, non-empty round trip",
         cachefile::strategy, cachefile::check
     );
     vh_core::section!(
-        rep, "registry_file", (12_000, 600_000), 16,
+        rep, "registry_file", (8_000, 400_000), 16,
         "node registry file contents (raw bytes, JSON fragments, deep nesting; registries written by the real save() with 1-2 scalars replaced by boundary values / wrong types, or cut) -> NodeRegistry::load + from_json (+ to_status_summary); untouched: load(save(r)) == r as JSON. non-trivial: short raw file, edited leaf, cut, non-empty round trip",
         registry::strategy, registry::check
     );
